@@ -178,6 +178,18 @@ def failing_change_lists(fam):
     out.append(("negative-storage", [["set", j, "data_stored", ["q", -500.0, "megabyte"]]]))
     out.append(("storage-fixed-instances-exceeded", [["set", st, "fixed_nb_of_instances", ["q", 1.0, "dimensionless"]],
                                                       ["set", j, "data_stored", ["q", 900.0, "gigabyte"]]]))
+    spare_servers = [n for n in W.creation_order(w) if w["objects"][n]["cls"] == "Server" and n != sv]
+    if spare_servers:
+        other = spare_servers[0]
+        out.append(("link-to-server-over-capacity", [["link", j, "server", other],
+                                                      ["set", other, "base_ram_consumption", ["q", 500.0, "gigabyte"]]]))
+        out.append(("capacity-then-link", [["set", sv, "base_compute_consumption", ["q", 500.0, "cpu_core"]],
+                                           ["link", j, "server", other]]))
+    steps = [n for n in names if w["objects"][n]["cls"] == "UsageJourneyStep"]
+    out.append(("list-change-then-negative-storage", [["list", steps[0], "jobs", list(w["objects"][steps[0]]["attrs"]["jobs"][1])[::-1] + [jobs[-1]]],
+                                                       ["set", j, "data_stored", ["q", -500.0, "megabyte"]]]))
+    out.append(("list-change-then-refused-category", [["list", steps[0], "jobs", list(w["objects"][steps[0]]["attrs"]["jobs"][1]) + [jobs[-1]]],
+                                                       ["set", sv, "server_type", ["c", "mainframe"]]]))
     out.append(("valid-then-wrong-unit", [["set", j, "ram_needed", ["q", 60.0, "megabyte"]],
                                           ["set", j, "data_transferred", ["q", 3.0, "watt"]]]))
     return out
